@@ -21,6 +21,7 @@ RULE = ("scaled / fixed-variable / linearly and nonlinearly constrained "
         "the last evaluated point; distinct = (convention, callable kind, "
         "constraint kind, scale, k bucket)")
 RULE += ("  Also: scaled problems whose solution sits on the bounds; unhashable callable callbacks.")
+RULE += (" Problems rich in second-order corrections.")
 ASSUMPTIONS = [
     "solver deterministic (C11): reruns reproduce the base run up to call k",
     "optimality judged with the C03 reference model and the harness' true "
